@@ -17,6 +17,7 @@ from .interp import Interp, State, Outcome, Obligation, ObjUnderConstruction
 from .values import Unsupported, ExcVal, PyRaise, NeedFork, zbool, py_eq
 from . import interp as _interp
 
+MAX_FAILED_PER_FUNCTION = 3  # a broken function fails many obligations: the first few name the problem, the rest only cost time
 GLOBAL_AXIOMS: list = []  # callables () -> list of z3 facts (class axioms etc.)
 
 
@@ -213,8 +214,16 @@ def _enum_space(c):
     """cartesian product of enumerated parameter values (or a covering set when c.enum_cover)"""
     if c.enum_cover and c.enum_params:
         n = max(len(v) for v in c.enum_params.values())
-        return [{p: vals[(k + 0) % len(vals)] for p, vals in c.enum_params.items()} for k in range(n)] + \
-               [{p: vals[(k + i) % len(vals)] for i, (p, vals) in enumerate(c.enum_params.items())} for k in range(n)]
+        items = list(c.enum_params.items())
+        out, seen = [], set()
+        for shift in (0, 1, 2):
+            for k in range(n):
+                v = {p: vals[(k + shift * i) % len(vals)] for i, (p, vals) in enumerate(items)}
+                key = repr(sorted((p, repr(x)) for p, x in v.items()))
+                if key not in seen:
+                    seen.add(key)
+                    out.append(v)
+        return out
     space = [{}]
     for p, vals in c.enum_params.items():
         space = [dict(s, **{p: v}) for s in space for v in vals]
@@ -395,6 +404,7 @@ def _verify_function(qualname: str, timeout_ms=20000, cross_check=False, only=No
         rep.status, rep.reason = "error", "zero obligations generated"
         return rep
     seen = set()
+    bad = skipped = 0
     for ob in obligations:
         if only and not any(x in ob.name for x in only):
             continue
@@ -404,7 +414,15 @@ def _verify_function(qualname: str, timeout_ms=20000, cross_check=False, only=No
                 n += 1
             ob.name = f"{ob.name}~{n}"
         seen.add(ob.name)
-        rep.results.append(discharge(ob, timeout_ms, cross_check))
+        if bad >= MAX_FAILED_PER_FUNCTION:
+            skipped += 1
+            continue
+        r = discharge(ob, timeout_ms, cross_check)
+        rep.results.append(r)
+        if r.status != "discharged":
+            bad += 1
+    if skipped:
+        rep.reason = (rep.reason + f" [{skipped} further obligations not attempted after {MAX_FAILED_PER_FUNCTION} undischarged ones]").strip()
     for k, v in rep.vacuity.items():
         if v == "unsat" or v is False:
             rep.status, rep.reason = "error", f"vacuity guard failed: {k} = {v}"
